@@ -40,28 +40,362 @@ fn diff_fields(exp: &Value, got: &Value, path: &str, out: &mut Vec<String>) {
     }
 }
 
-pub fn run(cfg: Cfg) -> i32 {
-    let stdin = std::io::stdin();
-    let mut nh = 0usize;
-    let mut maxbufs = 0usize;
-    let mut statics: Vec<Vec<u8>> = vec![];
-    let mut edges = 0u64;
-    let mut executions = 0u64;
+
+/// One EDGE executed under every entry-point variant; the reply the worker sends back.
+fn exec_edge(v: &Value, nh: usize, maxbufs: usize, statics: &[Vec<u8>], variants_on: bool, sample_every: usize, counter: &mut usize, announce: &mut dyn FnMut(&str)) -> Value {
+    let path: Vec<Op> = serde_json::from_value(v["path"].clone()).expect("path");
+    let exp_o = &v["o"];
+    let exp_c = &v["c"];
+    let last = path.last().unwrap().clone();
+    let probe = Pool::new(nh, maxbufs, &[]);
+    let variants = if variants_on { probe.variants(&last) } else { vec![(String::new(), last.t)] };
+    let picks = if last.n < 0 { crate::pool::materialize(last.n, 1, true).len() } else { 1 };
+    let mut results = vec![];
     let mut steps = 0u64;
-    let mut mismatched_edges = 0u64;
-    let mut mismatch_fields: BTreeMap<String, u64> = BTreeMap::new();
-    let mut spec_errors = 0u64;
-    let mut spec_error_samples: Vec<Value> = vec![];
-    let mut ex_counts: BTreeMap<String, u64> = BTreeMap::new();
-    let mut op_counts: BTreeMap<String, u64> = BTreeMap::new();
-    let mut variant_counts: BTreeMap<String, u64> = BTreeMap::new();
-    let mut samples: Vec<Value> = vec![];
+    for (e, t) in variants.iter() {
+        for pick in 0..picks {
+            announce(&format!("V {} {} {}", if e.is_empty() { "-" } else { e }, t, pick));
+            let mut pool = Pool::new(nh, maxbufs, statics);
+            let mut recs: Vec<Value> = Vec::with_capacity(path.len());
+            let mut final_res = None;
+            for (i, op) in path.iter().enumerate() {
+                let mut op = op.clone();
+                if i + 1 == path.len() {
+                    op.e = e.clone();
+                    op.t = *t;
+                }
+                let r = pool.exec(&mut op, pick);
+                steps += 1;
+                let o = pool.observe();
+                recs.push(json!({"c":call_json(&op, &r),"o":o,"std":pool.std_texts()}));
+                if i + 1 == path.len() {
+                    final_res = Some(r);
+                }
+            }
+            let r = final_res.unwrap();
+            let got_o = recs.last().unwrap()["o"].clone();
+            let end_errs = pool.finish();
+            let mut diffs = vec![];
+            diff_fields(exp_o, &got_o, "o", &mut diffs);
+            let got_c = json!({"cls":r.cls,"val":r.val,"msg":r.msg,"dA":r.d_a,"dR":r.d_r,"dD":r.d_d,"inj":r.inj,"nreq":r.nreq,"shim":r.shim});
+            let mut exp_c2 = json!({});
+            for k in ["cls", "val", "msg", "dA", "dR", "dD", "inj", "nreq", "shim"] {
+                exp_c2[k] = exp_c[k].clone();
+            }
+            diff_fields(&exp_c2, &got_c, "c", &mut diffs);
+            if !end_errs.is_empty() {
+                diffs.push("end".into());
+            }
+            // the specification must agree with std String (else the spec is wrong)
+            let failed = r.cls == "err" || (r.cls == "panic" && r.msg == "reserve");
+            let exp_failed = exp_c["cls"] == "err" || (exp_c["cls"] == "panic" && exp_c["msg"] == "reserve");
+            let mut spec_error = Value::Null;
+            // (only an execution in which the crate matched the model exactly can testify against the
+            // specification: a deviating crate may have corrupted the process it shares with String)
+            if diffs.is_empty() && !failed && !exp_failed && r.scls != "skipped" {
+                let std = recs.last().unwrap()["std"].clone();
+                let mut bad = false;
+                for h in 0..nh {
+                    let exp_dead = exp_o["hd"][h]["k"] == "D";
+                    let std_dead = std[h] == json!([-1]);
+                    if exp_dead != std_dead || (!exp_dead && exp_o["hd"][h]["text"] != std[h]) {
+                        bad = true;
+                    }
+                }
+                let scls_ok = r.scls == exp_c["cls"].as_str().unwrap_or("") && json!(r.sval) == exp_c["val"]
+                    && (r.scls != "panic" || r.smsg == exp_c["msg"].as_str().unwrap_or(""));
+                if bad || !scls_ok {
+                    spec_error = json!({"path":v["path"],"std":std,"scls":r.scls,"smsg":r.smsg,"exp_c":exp_c});
+                }
+            }
+            *counter += 1;
+            let is_sample = sample_every > 0 && (*counter % sample_every == 1 || *counter < 30);
+            if diffs.is_empty() && !is_sample {
+                recs.clear();
+            }
+            results.push(json!({"e":e,"t":t,"pick":pick,"diffs":diffs,"spec_error":spec_error,"recs":recs,"end_errs":end_errs,"exp_c":exp_c2,"sample":is_sample}));
+        }
+    }
+    json!({"steps":steps,"op":last.op,"results":results})
+}
+
+/// `lsverif worker`: executes edges sent by the parent, one reply line per edge. Crate code runs
+/// only here, so an abort of the code under test kills the worker, not the bookkeeping.
+pub fn worker(variants_on: bool, sample_every: usize) -> i32 {
+    let mut counter = 0usize;
+    use std::io::Write;
+    let stdin = std::io::stdin();
+    let stdout = std::io::stdout();
+    let (mut nh, mut maxbufs, mut statics) = (0usize, 0usize, Vec::<Vec<u8>>::new());
+    for line in stdin.lock().lines() {
+        let Ok(line) = line else { break };
+        if let Some(j) = line.strip_prefix("HDR ") {
+            let v: Value = serde_json::from_str(j).unwrap();
+            nh = v["nh"].as_u64().unwrap() as usize;
+            maxbufs = v["maxbufs"].as_u64().unwrap() as usize;
+            statics = serde_json::from_value(v["statics"].clone()).unwrap();
+        } else if let Some(j) = line.strip_prefix("EDGE ") {
+            let v: Value = serde_json::from_str(j).expect("edge json");
+            let mut ann = |s: &str| {
+                let mut o = stdout.lock();
+                writeln!(o, "{s}").unwrap();
+                o.flush().unwrap();
+            };
+            let reply = exec_edge(&v, nh, maxbufs, &statics, variants_on, sample_every, &mut counter, &mut ann);
+            let deviated = reply["results"].as_array().map(|rs| rs.iter().any(|r| r["diffs"].as_array().map(|d| !d.is_empty()).unwrap_or(false))).unwrap_or(false);
+            let mut o = stdout.lock();
+            writeln!(o, "R {}", reply).unwrap();
+            if deviated {
+                // the code under test did something the model does not allow: this process may be
+                // damaged (out-of-bounds writes, freed memory in use). Retire; the parent respawns.
+                writeln!(o, "X").unwrap();
+                o.flush().unwrap();
+                return 0;
+            }
+            o.flush().unwrap();
+        }
+    }
+    0
+}
+
+
+use std::collections::VecDeque;
+use std::sync::mpsc;
+
+struct Worker {
+    child: std::process::Child,
+    tx: Option<std::process::ChildStdin>,
+    rx: mpsc::Receiver<Option<String>>, // None: the worker's stdout closed
+    outstanding: VecDeque<(u64, String, Value)>,
+    last_variant: String,
+    retiring: bool,
+}
+
+fn spawn_worker(variants_on: bool, sample_every: usize, hdr: &Option<String>) -> Worker {
+    use std::io::Write;
+    use std::process::{Command, Stdio};
+    let exe = std::env::current_exe().unwrap();
+    let mut child = Command::new(exe)
+        .arg("worker")
+        .arg("--variants")
+        .arg(if variants_on { "all" } else { "default" })
+        .arg("--sample-every")
+        .arg(sample_every.to_string())
+        .stdin(Stdio::piped())
+        .stdout(Stdio::piped())
+        .stderr(Stdio::null())
+        .spawn()
+        .expect("spawn worker");
+    let mut tx = child.stdin.take().unwrap();
+    let out = child.stdout.take().unwrap();
+    let (stx, rx) = mpsc::channel();
+    std::thread::spawn(move || {
+        let rd = std::io::BufReader::new(out);
+        for l in rd.lines() {
+            match l {
+                Ok(l) => {
+                    if stx.send(Some(l)).is_err() {
+                        return;
+                    }
+                }
+                Err(_) => break,
+            }
+        }
+        let _ = stx.send(None);
+    });
+    if let Some(h) = hdr {
+        let _ = writeln!(tx, "HDR {h}");
+    }
+    Worker { child, tx: Some(tx), rx, outstanding: VecDeque::new(), last_variant: String::new(), retiring: false }
+}
+
+struct Agg {
+    cfg: Cfg,
+    nh: usize,
+    maxbufs: usize,
+    statics: Vec<Vec<u8>>,
+    hdr: Option<String>,
+    edges: u64,
+    executions: u64,
+    steps: u64,
+    mismatched_edges: u64,
+    mismatch_fields: BTreeMap<String, u64>,
+    spec_errors: u64,
+    spec_error_samples: Vec<Value>,
+    ex_counts: BTreeMap<String, u64>,
+    op_counts: BTreeMap<String, u64>,
+    variant_counts: BTreeMap<String, u64>,
+    samples: Vec<Value>,
+    crashes: Vec<Value>,
+    mm: TraceWriter,
+    sm: TraceWriter,
+    cr: TraceWriter,
+    mm_written: usize,
+}
+
+impl Agg {
+    fn reply(&mut self, edge_no: u64, v: &Value, reply: &Value) {
+        *self.op_counts.entry(reply["op"].as_str().unwrap_or("?").to_string()).or_default() += 1;
+        self.steps += reply["steps"].as_u64().unwrap_or(0);
+        let mut edge_mismatch = false;
+        for r in reply["results"].as_array().unwrap() {
+            self.executions += 1;
+            let e = r["e"].as_str().unwrap_or("");
+            *self.variant_counts.entry(format!("{}:{}{}", reply["op"].as_str().unwrap_or("?"), e, if r["t"] == 1 { "?" } else { "" })).or_default() += 1;
+            if !r["spec_error"].is_null() {
+                self.spec_errors += 1;
+                if self.spec_error_samples.len() < 5 {
+                    self.spec_error_samples.push(r["spec_error"].clone());
+                }
+            }
+            let diffs: Vec<String> = serde_json::from_value(r["diffs"].clone()).unwrap_or_default();
+            let end_errs: Vec<String> = serde_json::from_value(r["end_errs"].clone()).unwrap_or_default();
+            if !diffs.is_empty() {
+                edge_mismatch = true;
+                for d in &diffs {
+                    *self.mismatch_fields.entry(d.clone()).or_default() += 1;
+                }
+                if self.mm_written < self.cfg.max_mismatch_traces {
+                    self.mm_written += 1;
+                    self.mm.init(self.nh, self.maxbufs, &self.statics, &json!({"edge":edge_no,"variant":e,"diffs":diffs,"expected_o":v["o"],"expected_c":r["exp_c"]}));
+                    for rec in r["recs"].as_array().unwrap() {
+                        self.mm.call(&rec["c"], &rec["o"], &rec["std"]);
+                    }
+                    self.mm.end(&end_errs);
+                }
+            } else if r["sample"] == true {
+                self.sm.init(self.nh, self.maxbufs, &self.statics, &json!({"edge":edge_no,"variant":e}));
+                for rec in r["recs"].as_array().unwrap() {
+                    self.sm.call(&rec["c"], &rec["o"], &rec["std"]);
+                }
+                self.sm.end(&end_errs);
+                if self.samples.len() < 5 {
+                    self.samples.push(json!({"path":v["path"],"expected_after":v["o"]["hd"],"result":r["exp_c"]}));
+                }
+            }
+        }
+        if edge_mismatch {
+            self.mismatched_edges += 1;
+        }
+    }
+
+    /// the code under test took the worker down: that is data, not a tool failure
+    fn crash(&mut self, edge_no: u64, v: &Value, last_variant: &str, status: &str) {
+        use std::io::Write;
+        let path: Vec<Op> = serde_json::from_value(v["path"].clone()).expect("path");
+        let mut vp = last_variant.split(' ');
+        let (ve, vt) = (vp.next().unwrap_or("-").to_string(), vp.next().unwrap_or("0").parse::<i64>().unwrap_or(0));
+        if self.crashes.len() < 50 {
+            let last = path.last().unwrap();
+            self.crashes.push(json!({"path":v["path"],"variant":last_variant,"status":status,"hist":self.cr.histories + 1,
+                "op":last.op,"arg": if !last.f.is_empty() { "alloc-fails" } else { match last.n { -1 => "big", -2 => "toolong", -3 => "overflow", _ => "plain" } }}));
+            self.cr.init(self.nh, self.maxbufs, &self.statics, &json!({"edge":edge_no,"variant":last_variant,"status":status,"crash":true}));
+            for (i, op) in path.iter().enumerate() {
+                let mut op = op.clone();
+                if i + 1 == path.len() {
+                    op.e = if ve == "-" { String::new() } else { ve.clone() };
+                    op.t = vt;
+                }
+                let rec = json!({"ev":"pre","c":call_json(&op, &Default::default())});
+                writeln!(self.cr.out, "{}", rec).unwrap();
+            }
+            self.cr.flush();
+        }
+    }
+
+    /// processes what worker `w` has sent; blocking: wait until at least one edge is settled
+    fn pump(&mut self, w: &mut Worker, blocking: bool) {
+        use std::io::Write;
+        let mut settled = false;
+        loop {
+            if w.outstanding.is_empty() {
+                return;
+            }
+            let msg = if blocking && !settled {
+                match w.rx.recv() {
+                    Ok(m) => m,
+                    Err(_) => None,
+                }
+            } else {
+                match w.rx.try_recv() {
+                    Ok(m) => m,
+                    Err(mpsc::TryRecvError::Empty) => return,
+                    Err(mpsc::TryRecvError::Disconnected) => None,
+                }
+            };
+            match msg {
+                Some(l) => {
+                    if let Some(r) = l.strip_prefix("R ") {
+                        let (no, _, v) = w.outstanding.pop_front().unwrap();
+                        if let Ok(reply) = serde_json::from_str::<Value>(r) {
+                            self.reply(no, &v, &reply);
+                        }
+                        w.last_variant.clear();
+                        settled = true;
+                    } else if let Some(vn) = l.strip_prefix("V ") {
+                        w.last_variant = vn.trim().to_string();
+                    } else if l == "X" {
+                        w.retiring = true;
+                    }
+                }
+                None => {
+                    let status = w.child.wait().map(|s| format!("{s}")).unwrap_or_default();
+                    if !w.retiring {
+                        // worker died: the first unsettled edge is the one that killed it
+                        let (no, _, v) = w.outstanding.pop_front().unwrap();
+                        let lv = std::mem::take(&mut w.last_variant);
+                        self.crash(no, &v, &lv, &status);
+                    }
+                    let rest: Vec<(u64, String, Value)> = w.outstanding.drain(..).collect();
+                    *w = spawn_worker(self.cfg.variants, self.cfg.sample_every, &self.hdr);
+                    for (no, j, v) in rest {
+                        if let Some(tx) = w.tx.as_mut() {
+                            let _ = writeln!(tx, "EDGE {j}");
+                        }
+                        w.outstanding.push_back((no, j, v));
+                    }
+                    if let Some(tx) = w.tx.as_mut() {
+                        let _ = tx.flush();
+                    }
+                    settled = true;
+                }
+            }
+        }
+    }
+}
+
+pub fn run(cfg: Cfg) -> i32 {
+    use std::io::Write;
+    const NWORKERS: usize = 6;
+    const WINDOW: usize = 24;
+    let stdin = std::io::stdin();
+    std::fs::create_dir_all(&cfg.out_dir).unwrap();
+    let mut a = Agg {
+        mm: TraceWriter::create(&format!("{}/mismatch.ndjson", cfg.out_dir)),
+        sm: TraceWriter::create(&format!("{}/sample.ndjson", cfg.out_dir)),
+        cr: TraceWriter::create(&format!("{}/crash.ndjson", cfg.out_dir)),
+        cfg,
+        nh: 0,
+        maxbufs: 0,
+        statics: vec![],
+        hdr: None,
+        edges: 0,
+        executions: 0,
+        steps: 0,
+        mismatched_edges: 0,
+        mismatch_fields: BTreeMap::new(),
+        spec_errors: 0,
+        spec_error_samples: vec![],
+        ex_counts: BTreeMap::new(),
+        op_counts: BTreeMap::new(),
+        variant_counts: BTreeMap::new(),
+        samples: vec![],
+        crashes: vec![],
+        mm_written: 0,
+    };
     let mut tlc_tail: Vec<String> = vec![];
     let mut failing_lines: Vec<String> = vec![];
-    std::fs::create_dir_all(&cfg.out_dir).unwrap();
-    let mut mm = TraceWriter::create(&format!("{}/mismatch.ndjson", cfg.out_dir));
-    let mut sm = TraceWriter::create(&format!("{}/sample.ndjson", cfg.out_dir));
-    let mut mm_written = 0usize;
+    let mut workers: Vec<Worker> = vec![];
 
     for line in stdin.lock().lines() {
         let line = match line {
@@ -83,10 +417,13 @@ pub fn run(cfg: Cfg) -> i32 {
             Err(_) => continue,
         };
         if let Some(j) = inner.strip_prefix("HDR ") {
-            let v: Value = serde_json::from_str(j).unwrap();
-            nh = v["nh"].as_u64().unwrap() as usize;
-            maxbufs = v["maxbufs"].as_u64().unwrap() as usize;
-            statics = serde_json::from_value(v["statics"].clone()).unwrap();
+            if a.hdr.is_none() {
+                let v: Value = serde_json::from_str(j).unwrap();
+                a.nh = v["nh"].as_u64().unwrap() as usize;
+                a.maxbufs = v["maxbufs"].as_u64().unwrap() as usize;
+                a.statics = serde_json::from_value(v["statics"].clone()).unwrap();
+                a.hdr = Some(j.to_string());
+            }
             continue;
         }
         let Some(j) = inner.strip_prefix("EDGE ") else { continue };
@@ -97,117 +434,49 @@ pub fn run(cfg: Cfg) -> i32 {
                 return 2;
             }
         };
-        edges += 1;
-        let path: Vec<Op> = serde_json::from_value(v["path"].clone()).expect("path");
-        let exp_o = &v["o"];
-        let exp_c = &v["c"];
+        a.edges += 1;
         for e in v["ex"].as_array().into_iter().flatten() {
-            *ex_counts.entry(e.as_str().unwrap_or("?").to_string()).or_default() += 1;
+            *a.ex_counts.entry(e.as_str().unwrap_or("?").to_string()).or_default() += 1;
         }
-        let last = path.last().unwrap().clone();
-        *op_counts.entry(last.op.clone()).or_default() += 1;
-        let probe = Pool::new(nh, maxbufs, &[]);
-        let variants = if cfg.variants { probe.variants(&last) } else { vec![(String::new(), last.t)] };
-        let picks = if last.n < 0 { crate::pool::materialize(last.n, 1, true).len() } else { 1 };
-        for (e, t) in variants.iter() {
-            for pick in 0..picks {
-                executions += 1;
-                *variant_counts.entry(format!("{}:{}{}", last.op, e, if *t == 1 { "?" } else { "" })).or_default() += 1;
-                let mut pool = Pool::new(nh, maxbufs, &statics);
-                let mut recs: Vec<(Value, Value, Value)> = Vec::with_capacity(path.len());
-                let mut final_res = None;
-                for (i, op) in path.iter().enumerate() {
-                    let mut op = op.clone();
-                    if i + 1 == path.len() {
-                        op.e = e.clone();
-                        op.t = *t;
-                    }
-                    let r = pool.exec(&mut op, pick);
-                    steps += 1;
-                    let o = pool.observe();
-                    recs.push((call_json(&op, &r), o, pool.std_texts()));
-                    if i + 1 == path.len() {
-                        final_res = Some(r);
-                    }
-                }
-                let r = final_res.unwrap();
-                let got_o = recs.last().unwrap().1.clone();
-                let end_errs = pool.finish();
-                // ---- compare with the design model's prediction
-                let mut diffs = vec![];
-                diff_fields(exp_o, &got_o, "o", &mut diffs);
-                let got_c = json!({"cls":r.cls,"val":r.val,"msg":r.msg,"dA":r.d_a,"dR":r.d_r,"dD":r.d_d,"inj":r.inj,"nreq":r.nreq,"shim":r.shim});
-                let mut exp_c2 = json!({});
-                for k in ["cls", "val", "msg", "dA", "dR", "dD", "inj", "nreq", "shim"] {
-                    exp_c2[k] = exp_c[k].clone();
-                }
-                diff_fields(&exp_c2, &got_c, "c", &mut diffs);
-                if !end_errs.is_empty() {
-                    diffs.push("end".into());
-                }
-                // ---- the specification must agree with std String (else the spec is wrong)
-                let failed = r.cls == "err" || (r.cls == "panic" && r.msg == "reserve");
-                let exp_failed = exp_c["cls"] == "err" || (exp_c["cls"] == "panic" && exp_c["msg"] == "reserve");
-                if !failed && !exp_failed && last.op != "write_display" {
-                    let std = recs.last().unwrap().2.clone();
-                    let mut bad = false;
-                    for h in 0..nh {
-                        let exp_dead = exp_o["hd"][h]["k"] == "D";
-                        let std_dead = std[h] == json!([-1]);
-                        if exp_dead != std_dead || (!exp_dead && exp_o["hd"][h]["text"] != std[h]) {
-                            bad = true;
-                        }
-                    }
-                    let scls_ok = r.scls == exp_c["cls"].as_str().unwrap_or("") && json!(r.sval) == exp_c["val"]
-                        && (r.scls != "panic" || r.smsg == exp_c["msg"].as_str().unwrap_or(""));
-                    if bad || !scls_ok {
-                        spec_errors += 1;
-                        if spec_error_samples.len() < 5 {
-                            spec_error_samples.push(json!({"path":v["path"],"std":std,"scls":r.scls,"smsg":r.smsg,"exp_c":exp_c}));
-                        }
-                    }
-                }
-                let is_sample = cfg.sample_every > 0 && (executions as usize % cfg.sample_every == 1 || executions < 30);
-                if !diffs.is_empty() {
-                    if pick == 0 {
-                        mismatched_edges += 1;
-                    }
-                    for d in &diffs {
-                        *mismatch_fields.entry(d.clone()).or_default() += 1;
-                    }
-                    if mm_written < cfg.max_mismatch_traces {
-                        mm_written += 1;
-                        mm.init(nh, maxbufs, &statics, &json!({"edge":edges,"variant":e,"diffs":diffs,"expected_o":exp_o,"expected_c":exp_c2}));
-                        for (c, o, s) in &recs {
-                            mm.call(c, o, s);
-                        }
-                        mm.end(&end_errs);
-                    }
-                } else if is_sample {
-                    sm.init(nh, maxbufs, &statics, &json!({"edge":edges,"variant":e}));
-                    for (c, o, s) in &recs {
-                        sm.call(c, o, s);
-                    }
-                    sm.end(&end_errs);
-                    if samples.len() < 5 {
-                        samples.push(json!({"path":v["path"],"expected_after":exp_o["hd"],"result":exp_c2}));
-                    }
-                }
-            }
+        if workers.len() < NWORKERS {
+            workers.push(spawn_worker(a.cfg.variants, a.cfg.sample_every, &a.hdr));
         }
+        let wi = (a.edges as usize) % workers.len();
+        let w = &mut workers[wi];
+        while w.outstanding.len() >= WINDOW {
+            a.pump(w, true);
+        }
+        if w.retiring && w.outstanding.is_empty() {
+            let _ = w.child.wait();
+            *w = spawn_worker(a.cfg.variants, a.cfg.sample_every, &a.hdr);
+        }
+        if let Some(tx) = w.tx.as_mut() {
+            let _ = writeln!(tx, "EDGE {j}").and_then(|_| tx.flush());
+        }
+        w.outstanding.push_back((a.edges, j.to_string(), v));
+        a.pump(w, false);
     }
-    mm.flush();
-    sm.flush();
+    for w in workers.iter_mut() {
+        while !w.outstanding.is_empty() {
+            a.pump(w, true);
+        }
+        w.tx = None; // closes the worker's stdin: it exits
+        let _ = w.child.wait();
+    }
+    a.mm.flush();
+    a.sm.flush();
+    a.cr.flush();
     let summary = json!({
-        "edges": edges, "executions": executions, "steps": steps,
-        "mismatched_executions": mismatch_fields.values().sum::<u64>().min(u64::MAX), "mismatched_edges": mismatched_edges,
-        "mismatch_fields": mismatch_fields, "mismatch_traces_written": mm_written, "mismatch_trace_events": mm.events,
-        "sample_histories": sm.histories, "sample_events": sm.events,
-        "spec_errors": spec_errors, "spec_error_samples": spec_error_samples,
-        "exercised": ex_counts, "ops": op_counts, "variants": variant_counts, "samples": samples,
+        "edges": a.edges, "executions": a.executions, "steps": a.steps,
+        "mismatched_edges": a.mismatched_edges,
+        "mismatch_fields": a.mismatch_fields, "mismatch_traces_written": a.mm_written, "mismatch_trace_events": a.mm.events,
+        "sample_histories": a.sm.histories, "sample_events": a.sm.events,
+        "spec_errors": a.spec_errors, "spec_error_samples": a.spec_error_samples,
+        "exercised": a.ex_counts, "ops": a.op_counts, "variants": a.variant_counts, "samples": a.samples,
+        "crashes": a.crashes,
         "tlc_failing": failing_lines, "tlc_tail": tlc_tail,
     });
-    std::fs::write(format!("{}/replay_summary.json", cfg.out_dir), serde_json::to_string_pretty(&summary).unwrap()).unwrap();
-    println!("replay: edges={edges} executions={executions} steps={steps} mismatched_edges={mismatched_edges} spec_errors={spec_errors}");
+    std::fs::write(format!("{}/replay_summary.json", a.cfg.out_dir), serde_json::to_string_pretty(&summary).unwrap()).unwrap();
+    println!("replay: edges={} executions={} steps={} mismatched_edges={} spec_errors={} crashes={}", a.edges, a.executions, a.steps, a.mismatched_edges, a.spec_errors, a.crashes.len());
     0
 }
